@@ -170,12 +170,12 @@ _THOROUGH = [i for i in USABLE if VIOL[i]]
 CONDITIONS = [
     Cond(name="violate", fn="violate",
          params=[("ci", "int"), ("k", "int"), ("mode", "int"), ("bad", "int"), ("parent", "int"), ("extra", "int")],
-         pre=["-1 <= k <= 40", "0 <= mode <= 1", "0 <= bad <= 6", "0 <= parent <= 3", "0 <= extra <= 2"],
+         pre=["-1 <= k <= 40", "0 <= mode <= 1", "0 <= bad <= 9", "0 <= parent <= 3", "0 <= extra <= 2"],
          partitions={"quick": _parts(_QUICK), "thorough": _parts(_THOROUGH)},
          timeout={"quick": 300, "thorough": 600}, path_timeout=60,
          functions=["validate.valid_instance", "validate._valid_instance", "validate.validate_value_type", "validate.valid", "validate.VALIDATOR functions",
                     "saml.*.verify overrides", "SamlBase.verify"],
-         bounds="per class: every declared constraint (required attribute removed or emptied; typed attribute/text set to each of <= 7 catalogue values outside the "
+         bounds="per class: every declared constraint (required attribute removed or emptied; typed attribute/text set to each of <= 10 catalogue values outside the "
                 "XSD lexical space; child count min-1-extra / max+1+extra, extra <= 2) violated one at a time inside an otherwise valid generated instance, "
                 "at the root and nested under up to 3 possible parents; k = -1 is the all-valid instance. quick: saml, samlp, md, xmldsig, xmlenc plus every class of any module with an enumerated type or an occurrence bound >= 2; thorough: all schema modules"),
 ]
